@@ -92,6 +92,11 @@ GENERICS = [
     G("T,constN", "T, const N: usize", T="T", N="N"),
     G("T,constN,U", "T: ::core::clone::Clone, const N: usize, U", T="T", U="U", N="N"),
     G("'a,T,constN=default", "'a, T: ::core::clone::Clone, const N: usize = 3", where="T: 'a", T="T", lt="'a", N="N"),
+    G("T:2bounds+where", "T: ::core::clone::Clone + ::core::marker::Send", where="T: 'static + ::core::marker::Sync", T="T"),
+    G("T,U=default", "T, U = u8", T="T", U="U"),
+    G("constA:u8,constB:bool", "const A: u8, const B: bool", N="A"),
+    G("T=default,constN=default", "T = Tag, const N: usize = 1", T="T", N="N"),
+    G("constN,T:where-only", "const N: usize, T", where="T: ::core::marker::Sized, [u8; N]: ::core::marker::Sized", T="T", N="N"),
 ]
 GEN_BY_KEY = {g.key: g for g in GENERICS}
 
